@@ -364,6 +364,23 @@ func verifC02Run(f verifkit.F, c *verifkit.Case, cov *verifCoverage, plan *vs.FC
 	if k > 0 && k < n && famsAtCut[k] >= 3 && rmwAfter {
 		c.NonTrivial()
 	}
+	// sessions bound to checks at the cut that are gone at the end although their node is still there: ended through
+	// the session-check links (a derived table the restore has to rebuild)
+	if bound := points[k].dump.Rows("session_checks"); len(bound) > 0 {
+		c.Label("check-bound-session-at-cut")
+		alive, nodes := map[string]bool{}, map[string]bool{}
+		for _, r := range final.dump.Rows("sessions") {
+			alive[fmt.Sprint(r["ID"])] = true
+		}
+		for _, r := range final.dump.Rows("nodes") {
+			nodes[fmt.Sprint(r["Node"])] = true
+		}
+		for _, r := range bound {
+			if !alive[fmt.Sprint(r["Session"])] && nodes[fmt.Sprint(r["Node"])] {
+				c.Label("check-bound-session-ended-after-cut")
+			}
+		}
+	}
 
 	// ---- Y: restore X's snapshot taken at k
 	var y *verifReplica
